@@ -333,7 +333,7 @@ func TestC30(t *testing.T) {
 		return c
 	}
 	gen := func(yield func(vt.Case)) {
-		for _, env := range []string{"VERIF_CASES_TSDB", "VERIF_CASES_FILTERS", "VERIF_CASES_TSDB2", "VERIF_CASES_TSDB3"} {
+		for _, env := range []string{"VERIF_CASES_TSDB", "VERIF_CASES_FILTERS", "VERIF_CASES_TSDB2", "VERIF_CASES_TSDB3", "VERIF_CASES_FILTERS2"} {
 			p := os.Getenv(env)
 			if p == "" {
 				continue
@@ -350,7 +350,7 @@ func TestC30(t *testing.T) {
 				yield(withConcretisation(c, rnd))
 			}
 		}
-		nrand := vt.Pick(1500, 30000)
+		nrand := vt.Pick(1500, 20000)
 		for i := 0; i < nrand && !planHung.Load(); i++ {
 			yield(withConcretisation(randomLayout(rnd), rnd))
 		}
